@@ -297,6 +297,31 @@ def _slug(s: str) -> str:
 
 
 # ---- sharded execution -----------------------------------------------------------------
+def run_optimized_pass(prop: str, tier: str, seed: int, timeout: float):
+    """The same check once more in an interpreter started with -O (assert statements stripped, __debug__ false), on a slice of the
+    workload: returns (partial dict | None, failure reason | None)."""
+    import tempfile
+
+    tmpdir = tempfile.mkdtemp(prefix=f"hv-{prop}-opt-")
+    part = os.path.join(tmpdir, "part.json")
+    env = dict(os.environ, PYTHONDONTWRITEBYTECODE="1", HV_OPT_CHILD="1")
+    env.setdefault("PYTHONHASHSEED", "0")
+    env.pop("PYTHONOPTIMIZE", None)
+    cmd = [sys.executable, "-O", "-m", "hv", "check", prop, "--tier", "quick", "--seed", str(seed), "--shard", "0/8" if tier == "quick" else "0/2", "--partial", part]
+    try:
+        p = subprocess.run(cmd, cwd=VERIF, env=env, stdout=subprocess.PIPE, stderr=subprocess.STDOUT, text=True, timeout=timeout)
+        if p.returncode != 0 or not os.path.exists(part):
+            return None, f"the pass under python -O crashed (exit {p.returncode}): {p.stdout[-1500:]}"
+        with open(part) as f:
+            return json.load(f), None
+    except subprocess.TimeoutExpired:
+        return None, "watchdog: the pass under python -O exceeded the wall-clock limit"
+    finally:
+        import shutil
+
+        shutil.rmtree(tmpdir, ignore_errors=True)
+
+
 def run_sharded(prop: str, tier: str, seed: int, nshards: int, timeout: float):
     """Run `nshards` worker subprocesses; returns (list of partial dicts, failure reason|None)."""
     import tempfile
